@@ -9,7 +9,8 @@ from ..run import hyp_search, mix
 from .c01 import enum_histories, symbol_subset
 
 RULE = ('histories in which ops fail for every listed reason (wrong / foreign child, maxOccurs, other choice branch, '
-        'bad forward, remove / replace of a non-child, invalid attribute name or value, invalid value, xml_* with bad '
+        'bad forward, remove / replace of a non-child - never attached, a child of a held child, or a child of another '
+        'element, which must itself stay as it was -, invalid attribute name or value, invalid value, xml_* with bad '
         'value or unknown name, to_string on incomplete children / attributes): (a) ALL histories of <=3 ops over add '
         '/ remove / dot-None / to_string on a deterministic symbol subset of every type, (b) Hypothesis-drawn adaptive '
         'histories steered so that failures happen after duplication and after intelligent-choice attempts.  '
@@ -26,7 +27,7 @@ EXHAUSTIVE = False
 
 WEIGHTS = {'add': 10, 'add_fwd': 3, 'remove': 3, 'remove_nonchild': 2, 'replace': 2, 'replace_nonchild': 1,
            'dot_inst': 2, 'dot_val': 2, 'dot_none': 2, 'to_string': 3, 'set_attr': 2, 'set_attr_none': 1,
-           'set_value': 1}
+           'set_value': 1, 'add_nested': 2, 'remove_grandchild': 1, 'remove_elsewhere': 1}
 
 
 def run_observed(el, ops, skip=()):
